@@ -252,3 +252,48 @@ def kw(call: ast.Call, name: str) -> Optional[ast.AST]:
         if k.arg == name:
             return k.value
     return None
+
+
+# ---------------------------------------------------------------- relational facts
+def rel_of(e: ast.AST):
+    """Canonical relational fact of a single-operator comparison: ('lt'|'le', small, large) for orderings,
+    ('eq'|'ne', frozenset({a, b})) for equalities - independent of the way round the comparison is written."""
+    if not (isinstance(e, ast.Compare) and len(e.ops) == 1):
+        return None
+    a, b, op = norm(e.left), norm(e.comparators[0]), e.ops[0]
+    if isinstance(op, ast.Lt):
+        return ("lt", a, b)
+    if isinstance(op, ast.LtE):
+        return ("le", a, b)
+    if isinstance(op, ast.Gt):
+        return ("lt", b, a)
+    if isinstance(op, ast.GtE):
+        return ("le", b, a)
+    if isinstance(op, ast.Eq):
+        return ("eq", frozenset((a, b)))
+    if isinstance(op, ast.NotEq):
+        return ("ne", frozenset((a, b)))
+    return None
+
+
+def rel_negate(r):
+    if r is None:
+        return None
+    if r[0] == "lt":
+        return ("le", r[2], r[1])
+    if r[0] == "le":
+        return ("lt", r[2], r[1])
+    if r[0] == "eq":
+        return ("ne", r[1])
+    if r[0] == "ne":
+        return ("eq", r[1])
+    return None
+
+
+def rel_under(test: ast.AST, label: str):
+    """The relational fact that holds on the `label` ('true' / 'false') edge of a test (leading `not`s folded)."""
+    pos = label in ("true", "iter")
+    while isinstance(test, ast.UnaryOp) and isinstance(test.op, ast.Not):
+        test, pos = test.operand, not pos
+    r = rel_of(test)
+    return r if pos else rel_negate(r)
